@@ -66,6 +66,10 @@ add("runtime/chan.go", [
 ])
 add("internal/sync/mutex.go", [
     ("func (m *Mutex) Lock() {\n", "func (m *Mutex) Lock() {\n\truntime_simMaybeYield()\n", 1),
+    # Mutex fairness ("starvation mode" after 1 ms of *real* waiting) cannot be left to the wall clock when
+    # time is simulated: a waiter would be barged for ever by a goroutine that re-locks in the same fake
+    # instant. Hand-off is made FIFO after the first failed attempt (a legal behaviour of sync.Mutex).
+    ("\tstarvationThresholdNs = 1e6\n", "\tstarvationThresholdNs = -1 // sim\n", 1),
 ])
 add("internal/sync/runtime.go", [
     ("package sync\n", "package sync\n", 1),
